@@ -175,6 +175,9 @@ type DA struct {
 	failGet   bool
 	failText  bool // the scripted Get failure is a text-only "height from future" error (what a proxied DA returns)
 	failChunk int
+	// OnSubmit (optional) runs at the beginning of every Submit call, before the answer is taken: the blobs are in
+	// flight, the caller has not seen the result yet
+	OnSubmit func()
 }
 
 func NewDA() *DA {
